@@ -99,22 +99,46 @@ struct Outcome {
 
 /// One spawn of the combination `kinds` with sharing variant `shared` on the current thread.
 fn one_spawn(ctx: &mut Ctx, kinds: [usize; 3], shared: bool, dir: &std::path::Path, tag: &str) -> Outcome {
-    one_spawn_x(ctx, kinds, shared, dir, tag, None)
+    one_spawn_x(ctx, kinds, shared, dir, tag, &Layout::default())
+}
+
+/// The parent's own descriptor layout at the time of the spawn.
+#[derive(Clone, Debug, Default)]
+struct Layout {
+    /// standard descriptors the parent has closed
+    closed: Vec<usize>,
+    /// order in which the files handed over are opened (decides which of the free low numbers each one gets)
+    order: Vec<usize>,
+    /// true: the files are opened first and the descriptors closed afterwards, so that 0/1/2 are *free* at spawn time
+    /// and the pipes the library creates land on them
+    holes_at_spawn: bool,
 }
 
 /// `closed`: the parent has closed its own fd s beforehand, so that the file handed over for stream s happens to *be*
 /// descriptor s (a daemon that closed its stdin and passes a freshly opened file as the child's stdin).
-fn one_spawn_x(ctx: &mut Ctx, kinds: [usize; 3], shared: bool, dir: &std::path::Path, tag: &str, closed: Option<usize>) -> Outcome {
+fn one_spawn_x(ctx: &mut Ctx, kinds: [usize; 3], shared: bool, dir: &std::path::Path, tag: &str, layout: &Layout) -> Outcome {
     let mut viol: Vec<(String, String, J)> = vec![];
-    let combo = format!("{}/{}/{}{}{}", KINDS[kinds[0]], KINDS[kinds[1]], KINDS[kinds[2]], if shared { "+shared" } else { "" }, match closed { Some(s) => format!("+parent-fd{}-closed", s), None => String::new() });
+    let closed = &layout.closed;
+    let combo = format!(
+        "{}/{}/{}{}{}",
+        KINDS[kinds[0]], KINDS[kinds[1]], KINDS[kinds[2]], if shared { "+shared" } else { "" },
+        if closed.is_empty() { String::new() } else { format!("+parent-fd{}-{}", closed.iter().map(|c| c.to_string()).collect::<Vec<_>>().join("+"), if layout.holes_at_spawn { "free-at-spawn" } else { "closed" }) }
+    );
     // nobody else in this process may open a descriptor while the hole exists
-    let _hole_guard = closed.map(|_| crate::inspect::PROC_LOCK.lock().unwrap_or_else(|e| e.into_inner()));
-    let mut saved_fd = -1;
-    if let Some(s) = closed {
-        unsafe {
-            saved_fd = libc::syscall(libc::SYS_fcntl, s as i32, libc::F_DUPFD_CLOEXEC, 100) as i32;
-            libc::syscall(libc::SYS_close, s as i32);
+    // (the lock is for making and unmaking the layout only: the watchdog must be able to look at a spawn that hangs)
+    let mut hole_guard = if closed.is_empty() { None } else { Some(crate::inspect::proc_guard()) };
+    let mut saved_fd: Vec<(usize, i32)> = vec![];
+    let close_them = |saved_fd: &mut Vec<(usize, i32)>| {
+        for &s in closed.iter() {
+            unsafe {
+                let keep = libc::syscall(libc::SYS_fcntl, s as i32, libc::F_DUPFD_CLOEXEC, 100) as i32;
+                libc::syscall(libc::SYS_close, s as i32);
+                saved_fd.push((s, keep));
+            }
         }
+    };
+    if !layout.holes_at_spawn {
+        close_them(&mut saved_fd);
     }
     let exe = spawn::report_exe(ctx, dir, tag, "ph");
     let _ = std::fs::remove_file(spawn::report_path(&exe));
@@ -130,10 +154,7 @@ fn one_spawn_x(ctx: &mut Ctx, kinds: [usize; 3], shared: bool, dir: &std::path::
         std::fs::write(&p, vec![b'.'; 4096]).unwrap();
         std::fs::OpenOptions::new().read(true).write(true).open(&p).unwrap()
     };
-    let order: Vec<usize> = match closed {
-        Some(c) => std::iter::once(c).chain((0..3).filter(|&x| x != c)).collect(),
-        None => vec![0, 1, 2],
-    };
+    let order: Vec<usize> = if layout.order.len() == 3 { layout.order.clone() } else { closed.iter().cloned().chain((0..3).filter(|x| !closed.contains(x))).collect() };
     for s in order {
         let r = match kinds[s] {
             0 => Redirection::None,
@@ -187,8 +208,11 @@ fn one_spawn_x(ctx: &mut Ctx, kinds: [usize; 3], shared: bool, dir: &std::path::
         o.init = 100 * (i as u64 + 1);
         o.keeper.seek(SeekFrom::Start(o.init)).unwrap();
     }
+    if layout.holes_at_spawn {
+        close_them(&mut saved_fd);
+    }
     for fd in 0..3 {
-        if Some(fd as usize) != closed {
+        if !closed.contains(&(fd as usize)) {
             set_own_offset(fd, 1000 * (fd as i64 + 1));
         }
     }
@@ -197,10 +221,11 @@ fn one_spawn_x(ctx: &mut Ctx, kinds: [usize; 3], shared: bool, dir: &std::path::
     let serr = redirs[2].take().unwrap();
     let sout = redirs[1].take().unwrap();
     let sin = redirs[0].take().unwrap();
+    drop(hole_guard.take());
     let argv = vec![exe.clone().into_os_string(), OsString::from("x")];
     let config = PopenConfig { stdin: sin, stdout: sout, stderr: serr, ..Default::default() };
     // half of the spawns whose stdin setting the builder accepts go through Exec::cmd(..).stdin(..).stdout(..).stderr(..).popen()
-    let via_exec = kinds[0] != 4 && closed.is_none() && (kinds[0] + kinds[1] * 2 + kinds[2]) % 2 == 1;
+    let via_exec = kinds[0] != 4 && closed.is_empty() && (kinds[0] + kinds[1] * 2 + kinds[2]) % 2 == 1;
     let m = if via_exec {
         ctx.count("spawns_through_the_exec_builder", 1);
         let PopenConfig { stdin, stdout, stderr, .. } = config;
@@ -324,7 +349,7 @@ fn one_spawn_x(ctx: &mut Ctx, kinds: [usize; 3], shared: bool, dir: &std::path::
                         }
                     }
                     for n in 0..3 {
-                        if Some(n) == closed {
+                        if closed.contains(&n) {
                             continue;
                         }
                         let now = own_fd_state(n as i32).3;
@@ -345,13 +370,16 @@ fn one_spawn_x(ctx: &mut Ctx, kinds: [usize; 3], shared: bool, dir: &std::path::
         }
         (None, _) => {}
     }
-    if let Some(s) = closed {
-        // put the parent's own descriptor back
-        unsafe {
-            libc::syscall(libc::SYS_dup3, saved_fd, s as i32, 0);
-            libc::syscall(libc::SYS_close, saved_fd);
-        }
+    if !closed.is_empty() {
+        // let go of the files that may sit on the low numbers, then put the parent's own descriptors back
+        let _hole_guard = crate::inspect::proc_guard();
         drop(objs);
+        for (s, keep) in saved_fd {
+            unsafe {
+                libc::syscall(libc::SYS_dup3, keep, s as i32, 0);
+                libc::syscall(libc::SYS_close, keep);
+            }
+        }
         return Outcome { viol, valid: expect.is_some() };
     }
     // the parent's own standard streams must be untouched
@@ -380,7 +408,160 @@ fn report_all(ctx: &mut Ctx, o: Outcome) {
     }
 }
 
+/// Commands of a pipeline: the end settings of the pipeline (stdin of the first, stdout of the last, the shared
+/// stderr file of all) are wired like those of a single command, however the pipeline was put together.
+fn pipeline_ends(ctx: &mut Ctx, rng: &mut crate::rng::Rng, _i: u64) {
+    use subprocess::{Exec, Pipeline};
+    run::begin_case();
+    let dir = ctx.scratch("c05p");
+    let n = rng.range(2, 5) as usize;
+    let exes: Vec<std::path::PathBuf> = (0..n).map(|j| spawn::report_exe(ctx, &dir, &format!("q{}", j), "x")).collect();
+    let mut cmds: Vec<Exec> = exes.iter().map(Exec::cmd).collect();
+    let mk = |name: &str| -> File {
+        let p = dir.join(name);
+        std::fs::write(&p, vec![b'.'; 256]).unwrap();
+        std::fs::OpenOptions::new().read(true).write(true).open(&p).unwrap()
+    };
+    let sink = mk("stderr-sink");
+    let sink_id = sink.metadata().map(|m| (m.dev(), m.ino())).unwrap();
+    let infile = mk("stdin-file");
+    let in_id = infile.metadata().map(|m| (m.dev(), m.ino())).unwrap();
+    let outfile = mk("stdout-file");
+    let out_id = outfile.metadata().map(|m| (m.dev(), m.ino())).unwrap();
+    // where in the construction each end is configured: on the left operand before composing, or on the result
+    let shape = rng.below(4);
+    let early_err = rng.chance(500);
+    let early_in = rng.chance(500);
+    let mut sink_o = Some(sink);
+    let mut in_o = Some(infile);
+    let mut out_o = Some(outfile);
+    let mut pl: Pipeline;
+    let desc;
+    match shape {
+        0 => {
+            pl = Pipeline::from_exec_iter(cmds);
+            desc = "from_exec_iter".to_string();
+        }
+        1 => {
+            let rest = cmds.split_off(2);
+            let mut it = cmds.into_iter();
+            pl = it.next().unwrap() | it.next().unwrap();
+            if early_err {
+                pl = pl.stderr_to(sink_o.take().unwrap());
+            }
+            if early_in {
+                pl = pl.stdin(in_o.take().unwrap());
+            }
+            for c in rest {
+                pl = pl | c;
+            }
+            desc = format!("(a|b){}{}|c...", if early_err { ".stderr_to" } else { "" }, if early_in { ".stdin" } else { "" });
+        }
+        2 if n >= 4 => {
+            let right = cmds.split_off(2);
+            let mut it = cmds.into_iter();
+            pl = it.next().unwrap() | it.next().unwrap();
+            if early_err {
+                pl = pl.stderr_to(sink_o.take().unwrap());
+            }
+            if early_in {
+                pl = pl.stdin(in_o.take().unwrap());
+            }
+            let mut r = Pipeline::from_exec_iter(right);
+            if rng.chance(500) {
+                r = r.stdout(out_o.take().unwrap());
+            }
+            pl = pl | r;
+            desc = format!("(a|b){}{}|(c|d..){}", if early_err { ".stderr_to" } else { "" }, if early_in { ".stdin" } else { "" }, if out_o.is_none() { ".stdout" } else { "" });
+        }
+        _ => {
+            let mut it = cmds.into_iter();
+            pl = it.next().unwrap() | it.next().unwrap();
+            for c in it {
+                pl = pl | c;
+            }
+            desc = "a|b|c...".to_string();
+        }
+    }
+    if let Some(f) = sink_o.take() {
+        pl = pl.stderr_to(f);
+    }
+    if let Some(f) = in_o.take() {
+        pl = pl.stdin(f);
+    }
+    if let Some(f) = out_o.take() {
+        pl = pl.stdout(f);
+    }
+    let cloned = rng.chance(300);
+    if cloned {
+        pl = pl.clone();
+    }
+    let via_popen = rng.chance(500);
+    let m = run::monitored(move || {
+        if via_popen {
+            pl.popen().map(|mut v| {
+                for p in v.iter_mut() {
+                    let _ = p.wait();
+                }
+            })
+        } else {
+            pl.join().map(|_| ())
+        }
+    });
+    ctx.count("pipelines_whose_ends_were_inspected", 1);
+    ctx.count("spawn_attempts", n as i64);
+    let wit = |extra: J| J::obj().set("construction", J::s(&format!("{}{} ({} commands)", desc, if cloned { ", cloned" } else { "" }, n))).set("result", J::s(&format!("{:?} {:?}", m.result.as_ref().map(|r| r.as_ref().map_err(|e| e.to_string())), m.panic))).set("detail", extra);
+    if !matches!(m.result, Some(Ok(()))) {
+        ctx.violation("C05/pipeline/failed", "a valid pipeline was not run", wit(J::Null));
+        run::end_case();
+        return;
+    }
+    let reps: Vec<Option<Report>> = exes.iter().map(|e| spawn::get_report(e, 3000)).collect();
+    for (j, r) in reps.iter().enumerate() {
+        let r = match r {
+            Some(r) => r,
+            None => {
+                ctx.violation("C05/pipeline/no-report", &format!("command {} of the pipeline did not report", j), wit(J::Null));
+                continue;
+            }
+        };
+        ctx.count("children_inspected", 1);
+        let fd = |k: i32| r.fds.iter().find(|f| f.fd == k).cloned();
+        // the shared stderr file reaches every command
+        ctx.count("probes.file", 1);
+        match fd(2) {
+            Some(f) if (f.dev, f.ino) == sink_id => {}
+            other => ctx.violation(&format!("C05/pipeline/stderr-not-the-given-file/{}", if early_err { "set-before-composing" } else { "set-on-the-result" }), &format!("command {} of the pipeline does not have the file given to stderr_to() as its stderr", j), wit(J::s(&format!("{:?}", other.map(|f| f.target))))),
+        }
+        if j == 0 {
+            ctx.count("probes.file", 1);
+            match fd(0) {
+                Some(f) if (f.dev, f.ino) == in_id => {}
+                other => ctx.violation(&format!("C05/pipeline/stdin-not-the-given-file/{}", if early_in { "set-before-composing" } else { "set-on-the-result" }), "the first command does not have the file given to stdin() as its stdin", wit(J::s(&format!("{:?}", other.map(|f| f.target))))),
+            }
+        }
+        if j + 1 == n {
+            ctx.count("probes.file", 1);
+            match fd(1) {
+                Some(f) if (f.dev, f.ino) == out_id => {}
+                other => ctx.violation("C05/pipeline/stdout-not-the-given-file", "the last command does not have the file given to stdout() as its stdout", wit(J::s(&format!("{:?}", other.map(|f| f.target))))),
+            }
+        } else if let (Some(o), Some(Some(next))) = (fd(1), reps.get(j + 1)) {
+            // stage j's stdout is the pipe stage j+1 reads
+            ctx.count("probes.pipe", 1);
+            let nin = next.fds.iter().find(|f| f.fd == 0).and_then(|f| f.pipe_ino());
+            if o.pipe_ino().is_none() || o.pipe_ino() != nin {
+                ctx.violation("C05/pipeline/inter-command-pipe", &format!("stdout of command {} and stdin of command {} are not the two ends of one pipe", j, j + 1), wit(J::s(&format!("{} vs {:?}", o.target, nin))));
+            }
+        }
+    }
+    ctx.distinct(&format!("pl|{}|{}|{}|{}", n, desc, cloned, via_popen));
+    run::end_case();
+}
+
 pub fn run(ctx: &mut Ctx) {
+    let npl = ctx.n(300, 6000);
+    ctx.family("pipeline-ends", npl, pipeline_ends);
     ctx.max("combinations_total", 125);
     // every combination, distinct files and shared files, twice in a row on the same thread
     ctx.family("combos", 250, |ctx, _rng, i| {
@@ -418,11 +599,40 @@ pub fn run(ctx: &mut Ctx) {
         let shared = rng.chance(300);
         run::begin_case();
         let dir = ctx.scratch("c05c");
-        let o = one_spawn_x(ctx, kinds, shared, &dir, "c", Some(s));
+        let o = one_spawn_x(ctx, kinds, shared, &dir, "c", &Layout { closed: vec![s], order: vec![], holes_at_spawn: false });
         report_all(ctx, o);
         ctx.count("spawn_attempts", 1);
         ctx.count("spawns_with_a_stream_file_on_its_own_descriptor_number", 1);
         ctx.distinct(&format!("closed{}{:?}{}", s, kinds, shared));
+        run::end_case();
+    });
+    // any subset of the parent's standard descriptors is closed (a daemon): the files handed over then sit on low numbers,
+    // possibly on the number of *another* stream, or - opened before the descriptors were closed - leave 0/1/2 free for
+    // the pipes the library creates itself
+    let nlay = ctx.n(600, 12_000);
+    ctx.family("parent-descriptor-layouts", nlay, |ctx, rng, i| {
+        let subsets: [&[usize]; 7] = [&[0], &[1], &[2], &[0, 1], &[0, 2], &[1, 2], &[0, 1, 2]];
+        let closed: Vec<usize> = subsets[(i % 7) as usize].to_vec();
+        let holes_at_spawn = (i / 7) % 2 == 1;
+        // a closed descriptor cannot be inherited: its stream is piped, a file, or merged
+        let mut kinds = [0usize; 3];
+        for s in 0..3 {
+            kinds[s] = if closed.contains(&s) { *rng.pick(if s == 0 { &[1usize, 2, 3][..] } else { &[1usize, 2, 3, 4][..] }) } else { rng.below(if s == 0 { 4 } else { 5 }) as usize };
+        }
+        if kinds[1] == 4 && kinds[2] == 4 {
+            kinds[1 + rng.below(2) as usize] = 1 + rng.below(3) as usize;
+        }
+        let mut order = vec![0, 1, 2];
+        rng.shuffle(&mut order);
+        let shared = rng.chance(200);
+        run::begin_case();
+        let dir = ctx.scratch("c05l");
+        let lay = Layout { closed: closed.clone(), order: order.clone(), holes_at_spawn };
+        let o = one_spawn_x(ctx, kinds, shared, &dir, "l", &lay);
+        report_all(ctx, o);
+        ctx.count("spawn_attempts", 1);
+        ctx.count("spawns_under_a_parent_descriptor_layout_with_closed_standard_streams", 1);
+        ctx.distinct(&format!("layout{:?}{:?}{:?}{}{}", closed, order, kinds, shared, holes_at_spawn));
         run::end_case();
     });
     // the parent re-points one of its own standard streams between two spawns on the same thread (log rotation,
